@@ -231,6 +231,11 @@ SCOPE_SCENARIOS = [
     ("match-arm-binding-shadows-parameter", "pub fn sc@K@(app: AppHandle, y: @T@) {\n    match lookup(&y) {\n        Some(y) => app.emit(\"sc@K@\", y).unwrap(),\n        None => {}\n    }\n}\n", "?"),
     ("if-let-binding-shadows-parameter", "pub fn sc@K@(app: AppHandle, y: @T@) {\n    if let Some(y) = lookup(&y) {\n        app.emit(\"sc@K@\", y).unwrap();\n    }\n}\n", "?"),
     ("closure-parameter-shadows-parameter", "pub fn sc@K@(app: AppHandle, y: @T@) {\n    let send = |y| app.emit(\"sc@K@\", y).unwrap();\n    send(1);\n    let _ = y;\n}\n", "?"),
+    ("earlier-match-arm-binding-does-not-reach-a-later-arm", "pub fn sc@K@(app: AppHandle, y: @T@) {\n    match lookup(&y) {\n        Some(y) => drop(y),\n        None => app.emit(\"sc@K@\", y).unwrap(),\n    }\n}\n", "T"),
+    ("if-let-binding-does-not-reach-the-else-branch", "pub fn sc@K@(app: AppHandle, y: @T@) {\n    if let Some(y) = lookup(&y) {\n        drop(y);\n    } else {\n        app.emit(\"sc@K@\", y).unwrap();\n    }\n}\n", "T"),
+    ("closure-parameter-gone-after-the-closure", "pub fn sc@K@(app: AppHandle, y: @T@) {\n    let consume = |y: ScB| drop(y);\n    consume(make(0));\n    app.emit(\"sc@K@\", y).unwrap();\n}\n", "T"),
+    ("while-let-binding-gone-after-the-loop", "pub fn sc@K@(app: AppHandle, y: @T@) {\n    while let Some(y) = next_piece() {\n        drop(y);\n    }\n    app.emit(\"sc@K@\", &y).unwrap();\n}\n", "T"),
+    ("match-guard-sees-the-arm-binding-only", "pub fn sc@K@(app: AppHandle, y: @T@) {\n    match lookup(&y) {\n        Some(y) if check(&y) => {}\n        _ => {\n            app.emit(\"sc@K@\", y).unwrap();\n        }\n    }\n}\n", "T"),
     ("let-after-the-emit-does-not-reach-back", "pub fn sc@K@(app: AppHandle, y: @T@) {\n    app.emit(\"sc@K@\", &y).unwrap();\n    let y = ScB { b: String::new() };\n    let _ = y;\n}\n", "T"),
     ("same-name-in-another-function", "pub fn sc@K@_first(_app: AppHandle, y: ScA) {\n    let _ = y;\n}\n\npub fn sc@K@(app: AppHandle, y: @T@) {\n    app.emit(\"sc@K@\", y).unwrap();\n}\n", "T"),
 ]
@@ -238,7 +243,7 @@ SCOPE_TYPES = ["Named", "Vec<Named>", "Option<Named>", "HashMap<String, Named>",
 
 
 def run_scope_cases(a):
-    cli, k0, mode = a
+    cli, k0, mode = a[:3]
     src = [rg.PRELUDE, "use tauri::{AppHandle, Emitter};\n\n", rg.struct_src("Named", [("a", "i32")]), rg.struct_src("ScA", [("a", "i32")]), rg.struct_src("ScB", [("b", "String")]),
            rg.command_src("anchor", [("n", "Named"), ("a", "ScA"), ("b", "ScB")], "i32")]
     want = {}
